@@ -93,7 +93,7 @@ func (c c17Case) err() error {
 	e := &smtp.SMTPError{Code: c.Code, Message: c.Msg}
 	switch c.Enh {
 	case "set":
-		e.EnhancedCode = smtp.EnhancedCode{c.Code / 100, 7, 13}
+		e.EnhancedCode = smtp.EnhancedCode(c.setEnh())
 	case "none":
 		e.EnhancedCode = smtp.NoEnhancedCode
 	case "mismatch":
@@ -102,6 +102,13 @@ func (c c17Case) err() error {
 		e.EnhancedCode = smtp.EnhancedCode{9 - c.Code/100, 7, 1}
 	}
 	return e
+}
+
+// setEnh is the enhanced code of the "set" mode: subject and detail vary with the reply code and
+// the message over the whole 1*3DIGIT range of RFC 3463 (values above 255 included).
+func (c c17Case) setEnh() [3]int {
+	n := c.Code*31 + len(c.Msg)*7
+	return [3]int{c.Code / 100, []int{7, 0, 1, 13, 255, 256, 509, 999}[n%8], []int{13, 0, 1, 99, 255, 256, 300, 999}[(n/8)%8]}
 }
 
 // expected code / enhanced code / text
@@ -114,7 +121,7 @@ func (c c17Case) expected() (code int, enh [3]int, hasEnh bool, text string) {
 	}
 	switch c.Enh {
 	case "set":
-		return c.Code, [3]int{c.Code / 100, 7, 13}, true, c.Msg
+		return c.Code, c.setEnh(), true, c.Msg
 	case "unset":
 		return c.Code, [3]int{c.Code / 100, 0, 0}, true, c.Msg
 	case "mismatch":
